@@ -2,7 +2,7 @@ SPECIFICATION Spec
 CONSTANTS
   PathVars = 2
   QueryParams = 8
-  BodyLeaves = 8
+  BodyLeaves = 12
   Impl = "total"
   PanicAt = {}
   RecoverySettings = {TRUE, FALSE}
